@@ -10,9 +10,10 @@ import (
 )
 
 // C14: LineString.Clip / MultiLineString.Clip.  Output vertices are mapped to descriptors:
-//   {"k":"V","m":member,"i":vertex}                  exact equality with a line vertex
-//   {"k":"X","m":member,"i":segment,"r":ring,"e":edge} the unique proper crossing whose exact point is within 1e-9
-//   {"k":"?"}                                          no or ambiguous match
+//
+//	{"k":"V","m":member,"i":vertex}                  exact equality with a line vertex
+//	{"k":"X","m":member,"i":segment,"r":ring,"e":edge} the unique proper crossing whose exact point is within 1e-9
+//	{"k":"?"}                                          no or ambiguous match
 func init() {
 	families["c14"] = &Family{Run: runC14, Random: randomC14, Sandbox: true, DeadlineMS: 10000}
 }
@@ -67,7 +68,7 @@ func runC14(c map[string]interface{}) []Event {
 	}
 	shDec := func(v interface{}) float64 { return float64(num(v)) * f }
 	P := buildOperand(pm["polys"], str(pm["t"]), 1/f)
-	e := Event{"ev": "clip", "pieces": []interface{}{}, "empty": true, "again": false, "dense": false}
+	e := Event{"ev": "clip", "pieces": []interface{}{}, "empty": true, "again": false, "dense": false, "moved": false}
 	e["out"] = safely(func() {
 		var res geom.Linear
 		if ml, _ := c["ml"].(bool); ml {
@@ -96,6 +97,57 @@ func runC14(c map[string]interface{}) []Event {
 			res2 = geom.LineString(decPath(arr(c["lines"])[0], shDec)).Clip(P)
 		}
 		e["again"] = fmt.Sprint(res2) == fmt.Sprint(res)
+		// the polygon is then moved in place (every vertex of the same value shifted by (64, 0), exactly) and the line moved
+		// with it: the pieces are the moved pieces - what a Clip call answers depends on the polygon as it is now
+		e["moved"] = true
+		if ml, _ := c["ml"].(bool); !ml && f == 1 {
+			shift := func(pts []geom.Point) {
+				for i := range pts {
+					pts[i].X += 64
+				}
+			}
+			movedOK := false
+			switch x := P.(type) {
+			case geom.Polygon:
+				for _, r := range x {
+					shift(r)
+				}
+				movedOK = true
+			case geom.MultiPolygon:
+				for _, p := range x {
+					for _, r := range p {
+						shift(r)
+					}
+				}
+				movedOK = true
+			}
+			if movedOK {
+				l := geom.LineString(decPath(arr(c["lines"])[0], shDec))
+				shift(l)
+				m1, _ := res.(geom.MultiLineString)
+				m2, _ := l.Clip(P).(geom.MultiLineString)
+				if math.Abs(m1.Length()-m2.Length()) > 1e-9*(1+m1.Length()) || len(m1) != len(m2) {
+					e["moved"] = false
+				}
+				// and back, for what follows
+				switch x := P.(type) {
+				case geom.Polygon:
+					for _, r := range x {
+						for i := range r {
+							r[i].X -= 64
+						}
+					}
+				case geom.MultiPolygon:
+					for _, p := range x {
+						for _, r := range p {
+							for i := range r {
+								r[i].X -= 64
+							}
+						}
+					}
+				}
+			}
+		}
 		// a line is the set of its points: the same single line with every segment cut into 257 pieces (more vertices than
 		// any plausible working buffer) is clipped to the same total length, as a line string and as a one-member multi-line
 		e["dense"] = true
